@@ -83,7 +83,7 @@ func ReplayFileCmd(path string) int {
 	}
 	nr := c.ReplayResult
 	fmt.Printf("native replay of %s (%s / %s): failures=%v panic=%q assume_failed=%d\n", path, rf.Check, rf.Job, nr.Failures, nr.Panic, nr.AssumeFailed)
-	if len(nr.Failures) > 0 || nr.Panic != "" {
+	if len(nr.Failures) > 0 || (nr.Panic != "" && !c.ReplayOnlyFailures) {
 		fmt.Printf("VIOLATION property=%s replay=%s\n", rf.Check, path)
 		return 1
 	}
